@@ -832,7 +832,7 @@ def json_norm(o):
 
 
 def cases(tier, seed):
-    n = 6000 if tier == "quick" else 400000
+    n = 16000 if tier == "quick" else 600000
     for k in range(n):
         yield {"gen": "json" if k % 5 == 4 else "struct", "k": k}
 
@@ -1443,6 +1443,39 @@ def check_tables(ctx, rng, ms, schema, good, bad_objs, s, detail, codec="struct"
                 if bad and not has_mixed_index(schema):
                     ctx.violation("numpy/view-differs", f"ts.{kind}_metadata differs from row-wise decoding: {bad[:3]} "
                                                         f"schema={s}", detail)
+        # add_row() without metadata stores "the default metadata value for the table's schema, typically {}"
+        # (None for a nullable top level on the unchanged tree: either is accepted there)
+        ctx.count("table/add_row-default")
+        acceptable = set()
+        if codec == "struct":
+            if isinstance(schema["type"], list):
+                acceptable.add(b"")
+            if not required_keys(schema):
+                for H in HYPOTHESES:
+                    try:
+                        acceptable.add(enc(schema, fill(schema, {}), H))
+                    except (Either, Reject):
+                        acceptable = None
+                        break
+        else:
+            acceptable = {b"{}"} if not schema.get("required") else set()
+            if not schema.get("properties"):
+                acceptable = None  # validation of property-less JSON schemas is covered by run_json itself
+        if acceptable is not None:
+            nrows = table.num_rows
+            try:
+                add_row_to(tc, kind, nrows + 7)
+                stored = column_rows(table)[-1] if table.num_rows == nrows + 1 else None
+                if stored not in acceptable:
+                    ctx.violation("table/add_row-default",
+                                  f"{kind}.add_row() without metadata stored "
+                                  f"{stored.hex() if stored is not None else None}, expected one of "
+                                  f"{sorted(a.hex() for a in acceptable)}; schema={s}", detail)
+            except Exception as e:
+                if acceptable and codec == "struct":
+                    ctx.violation("table/add_row-default",
+                                  f"{kind}.add_row() without metadata raised {type(e).__name__}: {str(e)[:150]} "
+                                  f"although {{}} conforms (all properties have defaults); schema={s}", detail)
     except Exception as e:
         import traceback
 
